@@ -83,4 +83,51 @@ theorem scan_ident_dash (doC : Bool) (n : Nat) (hn : n = 1 ∨ n = 2) (c : Nat) 
   right
   simpa using hget
 
+theorem ident_dash_first_stop (stopcs : List (Nat × Nat)) (hstop : noStart stopcs nmcharRe = true) (n : Nat)
+    (hn : n = 1 ∨ n = 2) (c : Nat) (cs stop : Cps) (hc : inR nameStart c = true)
+    (hcs : ∀ x ∈ cs, inR identRest x = true) (hs : HeadIn (fun x => inR stopcs x = true) stop) :
+    reIDENT.first (dashes n ++ (c :: cs ++ stop)) = some (n + (c :: cs).length) := by
+  have hc45 : c ≠ 45 := by
+    intro e
+    have := clsFails_sound false [(45, 45)] nameStart c (by decide) hc
+    rw [e] at this; revert this; decide
+  rw [reIDENT_eq]
+  apply first_seq_some
+  · have := dashOpt_first_dashes n hn c (cs ++ stop) hc45
+    rwa [← List.cons_append] at this
+  · have hd : (dashes n ++ (c :: cs ++ stop)).drop n = c :: cs ++ stop := by
+      have := drop_length_append (dashes n) (c :: cs ++ stop)
+      rwa [dashes_length] at this
+    rw [hd]
+    exact identTail_first nameStart stopcs (by decide) hstop c cs stop hc hcs hs
+
+/-- **FUNCTION class, hyphen start** (`-moz-calc(`): one or two hyphens, a plain name, `(`, whatever follows -/
+theorem scan_function_dash (doC : Bool) (n : Nat) (hn : n = 1 ∨ n = 2) (c : Nat) (cs rest : Cps)
+    (hc : inR nameStart c = true) (hcs : ∀ x ∈ cs, inR identRest x = true) :
+    scan false doC (dashes n ++ (c :: cs ++ 40 :: rest)) productions =
+      .hit "FUNCTION" (n + (c :: cs).length + 1) := by
+  have hsplit : productions = productions.take 3 ++
+      (("IDENT", reIDENT) :: ("FUNCTION", reFUNCTION) :: productions.drop 5) := by decide
+  have hid := ident_dash_first_stop [(40, 40)] (by decide) n hn c cs (40 :: rest) hc hcs (headIn_cons (by decide))
+  have hlen : (dashes n ++ (c :: cs)).length = n + (c :: cs).length := by simp [dashes_length]
+  have hassoc : dashes n ++ (c :: cs ++ 40 :: rest) = (dashes n ++ (c :: cs)) ++ 40 :: rest := by simp
+  have hget : (dashes n ++ (c :: cs ++ 40 :: rest))[n + (c :: cs).length]? = some 40 := by
+    rw [hassoc, ← hlen, List.getElem?_append_right (Nat.le_refl _)]; simp
+  have htake : (dashes n ++ (c :: cs ++ 40 :: rest)).take (n + (c :: cs).length) = dashes n ++ (c :: cs) := by
+    rw [hassoc, ← hlen, List.take_left']; rfl
+  have hand : pyLower (dashes n ++ (c :: cs)) ≠ andWord := by
+    rcases hn with rfl | rfl <;> simp [dashes, pyLower, lowerCp, andWord]
+  have hic : identContinue "IDENT" (dashes n ++ (c :: cs ++ 40 :: rest)) (n + (c :: cs).length) = true := by
+    simp only [identContinue, htake, hget, beq_self_eq_true, Bool.true_and, Bool.and_true, Bool.and_eq_true,
+      bne_iff_ne, ne_eq, decide_eq_true_eq]
+    refine ⟨hand, ?_⟩
+    rw [hassoc, List.length_append, hlen]; simp
+  obtain ⟨t, ht⟩ : ∃ t, dashes n ++ (c :: cs ++ 40 :: rest) = 45 :: t := by
+    rcases hn with rfl | rfl <;> exact ⟨_, rfl⟩
+  rw [hsplit]
+  rw [ht] at hid hget hic ⊢
+  rw [scan_false_reject (cs := [(45, 45)]) (by decide) _ _ _ (by decide), scan_false_skip hid hic]
+  apply scan_false_hit (function_after_ident _ _ hid hget)
+  simp [identContinue]
+
 end CssVerif.Tok
